@@ -55,9 +55,6 @@ func VerifState(s *ServantProxy) VerifProxyState {
 	return st
 }
 
-// VerifSetMsgID presets the process-wide request id counter.
-func VerifSetMsgID(v int32) { atomic.StoreInt32(&msgID, v) }
-
 // VerifAdapter is the health record of one endpoint.
 type VerifAdapter struct {
 	Key    string
